@@ -62,12 +62,16 @@ type FrameHeader struct {
 func AcquireFrameHeader() *FrameHeader {
 	fr := frameHeaderPool.Get().(*FrameHeader)
 	fr.Reset()
+	verifPool("frameheader", fr, true)
 	return fr
 }
 
 // ReleaseFrameHeader reset and puts fr to the pool.
 func ReleaseFrameHeader(fr *FrameHeader) {
 	ReleaseFrame(fr.Body())
+	if verifPool("frameheader", fr, false) {
+		return
+	}
 	frameHeaderPool.Put(fr)
 }
 
@@ -140,6 +144,9 @@ func ReadFrameFrom(br *bufio.Reader) (*FrameHeader, error) {
 		if fr.Body() != nil {
 			ReleaseFrameHeader(fr)
 		} else {
+			if verifPool("frameheader", fr, false) {
+				return nil, err
+			}
 			frameHeaderPool.Put(fr)
 		}
 
@@ -158,6 +165,9 @@ func ReadFrameFromWithSize(br *bufio.Reader, max uint32) (*FrameHeader, error) {
 		if fr.Body() != nil {
 			ReleaseFrameHeader(fr)
 		} else {
+			if verifPool("frameheader", fr, false) {
+				return nil, err
+			}
 			frameHeaderPool.Put(fr)
 		}
 
